@@ -4,6 +4,7 @@ import concurrent.futures
 import json
 import os
 import subprocess
+import threading
 
 
 def run(ck, thorough):
@@ -16,16 +17,23 @@ def run(ck, thorough):
     outdir = ck.path("nest")
     os.makedirs(outdir, exist_ok=True)
 
+    confirm_lock = threading.Lock()
+
     def one(k):
         c = items[k]
         tp = os.path.join(outdir, "%d.ndjson" % k)
         args = [ck.vdrive, "lexers", "nest", "-lang", c["lang"], "-pre", c["pre"], "-open", c["open"], "-mid", c["mid"], "-close", c["close"],
                 "-post", c["post"], "-depth", str(c["depth"]), "-variant", c["variant"], "-out", tp, "-tid", str(k + 1)]
-        try:
-            p = subprocess.run(args, stdout=subprocess.PIPE, stderr=subprocess.PIPE, timeout=900)
-            rc, err = p.returncode, p.stderr[-400:].decode("utf-8", "replace")
-        except subprocess.TimeoutExpired:
-            rc, err = -1, "timeout (hang)"
+        def child():
+            try:
+                p = subprocess.run(args, stdout=subprocess.PIPE, stderr=subprocess.PIPE, timeout=900)
+                return p.returncode, p.stderr[-400:].decode("utf-8", "replace")
+            except subprocess.TimeoutExpired:
+                return -1, "timeout (hang)"
+        rc, err = child()
+        if rc != 0:
+            with confirm_lock:          # a dead child counts only if it dies again when run once more, one at a time
+                rc, err = child()
         if rc != 0:
             # the child died: fatal error (e.g. 'goroutine stack exceeds 1000000000-byte limit') or hang
             kind = "fatal" if rc != -1 else "hang"
